@@ -144,6 +144,21 @@ def has_unit(ast):
 
 
 # ------------------------------------------------------------------ checks
+def scribble(text):
+    from pgradd.Units import eval_qty
+    so = observe(eval_qty, text)
+    if 'ok' not in so:
+        return False
+    ns = {'eval_qty': eval_qty, 'q_': so['ok']}
+    for step in ('q_ *= 298.15', 'q_ /= eval_qty("mol")', 'q_ += q_',
+                 'q_ -= 0.5 * q_', 'q_ **= 2'):
+        try:
+            exec(step, ns)
+        except Exception:
+            pass
+    return True
+
+
 def check_valid(ctx, ast, text, kind):
     from pgradd.Units import eval_qty
     case = {'text': text, 'ast': ast, 'kind': kind}
@@ -164,6 +179,13 @@ def check_valid(ctx, ast, text, kind):
     except OverflowError:
         ctx.skip('outside float range')
         return
+    if kind == 'exhaustive lookup' and len(text) % 2 == 0:
+        # a caller who got this quantity before and changed it with
+        # augmented assignments (q *= x; q /= y; q += q; q **= 2): what the
+        # text denotes afterwards is what it denoted before
+        if scribble(text):
+            ctx.count('results_changed_by_the_caller_with_augmented_'
+                      'assignment')
     o = observe(eval_qty, text)
     ctx.evals()
     if 'exc' in o:
@@ -537,6 +559,12 @@ def run_shard(ctx):
 
 
 def replay(ctx, case):
+    # (the witness may be the consequence of what a caller did to an EARLIER
+    # result: repeat that for every bare unit name first)
+    for pre_ in [''] + list(U.PREFIXES)[:3]:
+        for n_ in U.UNITS:
+            if len(pre_ + n_) % 2 == 0:
+                scribble(pre_ + n_)
     if case.get('kind') == 'conversion':
         check_conversion(ctx, ctx.rng, case['from'], case['to'], case['x'])
     elif 'ast' in case:
